@@ -600,50 +600,52 @@ def render_real(lang, nodes, data, lookup='lenient'):
 # wire form for gdrv (see lean/Driver/C04.lean)
 
 def expr_w(e):
+    """wire atoms are upper case: a token starting with a lower-case s is a string on the wire"""
     from harness.proto import Atom, B
     k = e[0]
     if k == 'v':
-        return [Atom('v'), e[1]]
+        return [Atom('V'), e[1]]
     if k == 'n':
-        return [Atom('n')]
+        return [Atom('N')]
     if k == 'b':
-        return [Atom('b'), B(e[1])]
+        return [Atom('B'), B(e[1])]
     if k == 'i':
-        return [Atom('i'), Atom(str(e[1]))]
+        return [Atom('I'), Atom(str(e[1]))]
     if k == 's':
-        return [Atom('s'), e[1]]
+        return [Atom('S'), e[1]]
     if k == 'l':
-        return [Atom('l')] + [expr_w(a) for a in e[1]]
+        return [Atom('L')] + [expr_w(a) for a in e[1]]
     if k == 'd':
-        return [Atom('d')] + [[kk, expr_w(a)] for kk, a in e[1]]
+        return [Atom('D')] + [[kk, expr_w(a)] for kk, a in e[1]]
     if k in ('eq', 'ix'):
-        return [Atom(k), expr_w(e[1]), expr_w(e[2])]
+        return [Atom(k.upper()), expr_w(e[1]), expr_w(e[2])]
     if k in ('not', 'len'):
-        return [Atom(k), expr_w(e[1])]
+        return [Atom(k.upper()), expr_w(e[1])]
     if k == 'call':
-        return [Atom('call'), e[1], [expr_w(a) for a in e[2]]]
+        return [Atom('CALL'), e[1], [expr_w(a) for a in e[2]]]
     raise ValueError(e)
 
 
 def opt_w(e):
-    from harness.proto import N
-    return N if e is None else expr_w(e)
+    from harness.proto import Atom
+    return Atom('NONE') if e is None else expr_w(e)
 
 
 def dir_w(name, arg):
     from harness.proto import Atom
+    tag = Atom(name.capitalize())
     if name == 'def':
-        return [Atom('def'), arg[0], list(arg[1])]
+        return [tag, arg[0], list(arg[1])]
     if name == 'for':
-        return [Atom('for'), arg[0], expr_w(arg[1])]
+        return [tag, arg[0], expr_w(arg[1])]
     if name in ('if', 'replace', 'content', 'attrs'):
-        return [Atom(name), expr_w(arg)]
+        return [tag, expr_w(arg)]
     if name in ('when', 'choose', 'strip'):
-        return [Atom(name), opt_w(arg)]
+        return [tag, opt_w(arg)]
     if name == 'otherwise':
-        return [Atom('otherwise')]
+        return [tag]
     if name == 'with':
-        return [Atom('with'), [[n, expr_w(x)] for n, x in arg]]
+        return [tag, [[n, expr_w(x)] for n, x in arg]]
     raise ValueError(name)
 
 
@@ -651,16 +653,16 @@ def node_w(n):
     from harness.proto import Atom
     k = n[0]
     if k == 't':
-        return [Atom('t'), n[1]]
+        return [Atom('T'), n[1]]
     if k == 'e':
-        return [Atom('e'), expr_w(n[1])]
+        return [Atom('E'), expr_w(n[1])]
     if k == 'c':
-        return [Atom('c'), n[1], [expr_w(a) for a in n[2]]]
+        return [Atom('E'), expr_w(['call', n[1], n[2]])]
     if k == 'el':
-        return [Atom('el'), n[1], [[a, v] for a, v in n[2]], [dir_w(d, a) for d, a in n[3]],
+        return [Atom('EL'), n[1], [[a, v] for a, v in n[2]], [dir_w(d, a) for d, a in n[3]],
                 [node_w(c) for c in n[4]]]
     if k == 'd':
-        return [Atom('d'), dir_w(n[1], n[2]), [node_w(c) for c in n[3]]]
+        return [Atom('DE'), dir_w(n[1], n[2]), [node_w(c) for c in n[3]]]
     raise ValueError(n)
 
 
@@ -684,3 +686,14 @@ def walk(nodes):
 
 def clone(x):
     return copy.deepcopy(x)
+
+
+def norm_events_merge(ev):
+    """re-normalise a concatenation of normalised streams (merge adjacent text)"""
+    out = []
+    for e in ev:
+        if e[0] == 'T' and out and out[-1][0] == 'T':
+            out[-1] = ['T', out[-1][1] + e[1]]
+        else:
+            out.append(list(e))
+    return out
